@@ -69,6 +69,10 @@ def to_str(ex, st, v):
     from .values import VFunc
     if isinstance(v, VFunc):
         return VStr(z3.String(uid('str_of')))
+    if isinstance(v, VSeq) and not st.spec:
+        # the text of a tuple / list (only ever used for messages): an unknown string
+        ex.used_stubs.add('str(sequence): an unknown string (message text)')
+        return VStr(z3.String(uid('str_of_seq')))
     raise Unsupported('str(%r)' % (v,))
 
 
